@@ -1,6 +1,6 @@
 (* C05 — the client address of a request is no input of any second-factor decision (Model.SessionAddr) *)
 From Coq Require Import List NArith ZArith Bool Lia.
-From KM Require Import Base.Tactics Model.Session Model.SessionAddr.
+From KM Require Import Base.Tactics Model.Session Proofs.Session Model.SessionAddr.
 Import ListNotations.
 
 (* ---------------------------------------------------------------- the session machine *)
@@ -180,4 +180,49 @@ Proof.
            (nth 1 w_guard_two_addresses (Build_greq 0%N 0%N false false None)).
     vm_compute. repeat split; discriminate.
   - split; vm_compute; reflexivity.
+Qed.
+
+
+(* ---------------------------------------------------------------- the guard of Model.Session's Totp step is this guard
+   under the user key: `last_totp` is the value the guard compares with (the larger of the two counters),
+   `saved_totp` the persisted counter *)
+Lemma g_rel_init : g_rel init ginit.
+Proof. intros u a. split; reflexivity. Qed.
+
+Lemma totp_step_is_guard k cert fault s cs u l stp g a :
+  totp_monotone k = true -> totp_mem_guard k = true ->
+  auth k s cert cs any_mask = Some (u, l) ->
+  has_totp (devs k u) = true -> (totp_step (now s) - 1 <= stp <= totp_step (now s) + 1)%Z ->
+  g_rel s g ->
+  let r := {| g_user := u; g_addr := a; g_cached := from_cache k; g_fault := fault; g_code := Some stp |} in
+  let s' := fst (step_req k cert fault s (Totp cs (TCode u stp))) in
+  g_rel s' (fst (gstep N.eqb key_user g r)) /\
+  (snd (gstep N.eqb key_user g r) = true <-> spent s' = OtTotp u stp :: spent s) /\
+  (snd (gstep N.eqb key_user g r) = false -> s' = s).
+Proof.
+  intros Hm Hg Ha Hd Hwin HR r s'.
+  assert (Hw : (has_totp (devs k u) && N.eqb u u && (totp_step (now s) - 1 <=? stp)%Z && (stp <=? totp_step (now s) + 1)%Z) = true).
+  { rewrite Hd, N.eqb_refl. cbn [andb]. apply andb_true_iff. split; apply Z.leb_le; lia. }
+  subst s'. cbn [step_req]. rewrite Ha, Hw, Hm. unfold gstep. cbn [g_code g_user g_addr g_cached g_fault r].
+  destruct (HR u a) as [HL HS]. rewrite <- HL.
+  destruct (stp <=? last_totp s u)%Z eqn:E.
+  { cbn [fst snd]. split; [exact HR|]. split; [|reflexivity]. split; [discriminate|].
+    intros H. exfalso. apply (f_equal (@length _)) in H. cbn [length] in H. lia. }
+  rewrite (andb_comm fault). destruct (negb (from_cache k) && fault) eqn:F.
+  { cbn [fst snd]. split; [exact HR|]. split; [|reflexivity]. split; [discriminate|].
+    intros H. exfalso. apply (f_equal (@length _)) in H. cbn [length] in H. lia. }
+  apply Z.leb_gt in E. rewrite Hg.
+  match goal with |- context [upgrade k ?s1 u cs ?lvl] => set (s1' := s1); destruct (upgrade k s1' u cs lvl) as [s2 out] eqn:HU end.
+  pose proof (upgrade_fields _ _ _ _ _ _ _ HU) as [_ [_ [_ [_ [_ [HLt [_ [_ [HSp _]]]]]]]]].
+  pose proof (upgrade_saved_totp _ _ _ _ _ _ _ HU) as HSv.
+  cbn [fst snd set_ghost spent last_totp saved_totp]. split; [|split; [|discriminate]].
+  - intros v b. cbn [last_totp saved_totp set_ghost]. rewrite HLt, HSv. destruct (HR v b) as [HLv HSv']. unfold glast, key_user in *. cbn [persisted mem].
+    subst s1'. destruct (from_cache k); cbn [last_totp saved_totp set_totp]; unfold upd.
+    + destruct (N.eqb v u) eqn:Ev.
+      * apply N.eqb_eq in Ev. subst v. split; [|exact HSv']. lia.
+      * split; [exact HLv|exact HSv'].
+    + destruct (N.eqb v u) eqn:Ev.
+      * split; [lia|reflexivity].
+      * split; [exact HLv|exact HSv'].
+  - split; [intros _|reflexivity]. rewrite HSp. subst s1'. destruct (from_cache k); reflexivity.
 Qed.
